@@ -5,7 +5,9 @@ A site that matches no entry and no automatic idiom is a violation of R-C11-1.""
 
 INVARIANTS = {
     'I1': 'ids stored in the ack tables / intake queues / key snapshots refer to operations that exist (pending tables are purged in both completion points, R-C06-3; ids inserted are ids of existing operations, R-C01-5)',
-    'I2': 'the current operation exists while it is current (it is set from a dequeued id that passed contains_key, cleared at close/reset/fully-written; nothing completes an operation before it is fully written)',
+    'I2': 'the current operation exists at this site: it was looked up successfully earlier in the same service-loop iteration (straight-line code, no completion in between). '
+          'NOTE: the stronger claim made here until round 3 ("nothing completes an operation before it is fully written") was false - an ack timeout can fail a PUBREL-phase publish whose PUBREL is '
+          'only partially encoded (defect 17, fixed by 3132f67: the lookup in service_queue_aux is now a match, not an unwrap); R-C11-1 obligation `I2|lookup-dominates` checks the remaining sites',
     'I4': 'the CONNACK deadline is Some while PendingConnack (armed on every Ok path of the opened handler, R-C07-1; cleared only on leaving PendingConnack)',
     'I5': 'negotiated settings are Some whenever a non-CONNECT packet is validated or keep-alive is serviced (set at the CONNACK success site, cleared only by reset; R-C11-5)',
     'I6': 'the response handler is present until the operation completes (one-shot, only taken in the deliverers, R-C01-1/2) and the response variant matches the operation kind (R-C01-4/5)',
@@ -30,7 +32,6 @@ TABLE = [
     (r'fail_operations_exceeding_max_interruption_limit::\{closure#\d\}$', 'unwrap', r'^Option::unwrap\(HashMap::get\(self\.operations, val\)\)$', 'I1'),
     (r'partition_operation_queue_by_queue_policy::\{closure#1\}$', 'unwrap', r'^Option::unwrap\(HashMap::get\(self\.operations, id\)\)$', 'LIB'),
     (r'ProtocolState::acquire_packet_id_for_operation$', 'unwrap', r'^Option::unwrap\(HashMap::get(_mut)?\(self\.operations, operation_id\)\)$', 'I2'),
-    (r'ProtocolState::service_queue_aux$', 'unwrap', r'^Option::unwrap\(HashMap::get\(self\.operations, Option::unwrap\(self\.current_operation\)\)\)$', 'I2'),
     (r'ProtocolState::on_current_operation_fully_written$', 'unwrap', r'^Option::unwrap\(self\.current_operation\)$', 'I2'),
     (r'ProtocolState::on_current_operation_fully_written$', 'unwrap', r'^Option::unwrap\(HashMap::get_mut\(self\.operations, Option::unwrap\(self\.current_operation\)\)\)$', 'I2'),
     (r'ProtocolState::handle_pubcomp$', 'panic', r'^pending publish operation is not a publish$', 'I1'),
